@@ -165,6 +165,25 @@ def r2_classification(ctx, rep, P_, N_, R='C08.R2'):
     loops = [n for n in fi.node.body if isinstance(n, ast.For) and
              dotted(n.iter) in params(fi) and isinstance(n.target, ast.Name)]
     if len(loops) != 1:
+        # distribution through itertools.groupby: one group per RUN of consecutive equal keys, so
+        # the key "negated?" comes up again whenever the kinds are interleaved; a store that
+        # assigns (instead of adding to) the container of that key keeps only the last run
+        gb = [n for n in ast.walk(fi.node) if isinstance(n, ast.For) and isinstance(n.iter, ast.Call) and
+              (dotted(n.iter.func) or '').split('.')[-1] == 'groupby' and n.iter.args and
+              dotted(n.iter.args[0]) in params(fi) and
+              not (isinstance(n.iter.args[0], ast.Call))]
+        for lp_ in gb:
+            over = [st for st in ast.walk(lp_) if isinstance(st, ast.Assign) and any(
+                isinstance(t, ast.Subscript) or (isinstance(t, ast.Name) and t.id in (P_, N_))
+                for t in st.targets)]
+            if over:
+                rep.bad(R, 'pattern loop: %s' % norm(over[0]), 'the patterns are distributed with '
+                        'itertools.groupby over the UNSORTED pattern list and each group is assigned to '
+                        'its container: groupby starts a new group at every change of kind, so with '
+                        'interleaved positive and negated patterns a later group replaces the earlier '
+                        'patterns of the same kind (the result depends on pattern order)',
+                        key='classify:groupby-overwrite', func=fi.qualname, where=ctx.where(fi, over[0]))
+                return
         rep.undecide(R, 'pattern loop', 'expected one loop over the patterns parameter')
         return
     lp = loops[0]
